@@ -20,6 +20,8 @@ import (
 	"log"
 	"net"
 	"net/http"
+	"os"
+	"runtime/debug"
 	"sort"
 	"strconv"
 	"strings"
@@ -739,7 +741,6 @@ func (r *hcRun) dial(ctx context.Context, network, addr string, cfg *tls.Config)
 	sc := vs.NewStreamConn(r.sim, fmt.Sprintf("h2c%d", idx))
 	sc.DeliverWeight = 4
 	sc.DiscardAB() // the scripted server "reads" through the tap
-	sc.SplitHintAB = hcSplitHint
 	sc.SplitHintBA = hcSplitHint
 	cn := &hcConn{idx: idx, sc: sc, streams: map[uint32]*hcStream{}, auto: idx >= r.p.autoFrom,
 		cliIW: 65535, cliMaxFrame: 16384}
@@ -747,6 +748,10 @@ func (r *hcRun) dial(ctx context.Context, network, addr string, cfg *tls.Config)
 	cn.mon.allowTableSize(1 << 16)
 	cn.base, cn.sbase = hcGetBufs()
 	sc.TapAB(cn.tap)
+	// No split hints for the client->server direction: where a delivery to the
+	// scripted server stops inside a frame does not matter to it, and hints taken
+	// from the client's frames would make the schedule depend on the order in
+	// which the transport's goroutines wrote them (map-iteration order after a GOAWAY).
 	cn.fr = NewFramer(sc.B, nil)
 	cn.henc = hpack.NewEncoder(&cn.hbuf)
 	cn.sSettings = []hcSettings{{iw: 65535, mf: 16384, mcs: 1 << 31}}
@@ -869,10 +874,9 @@ func (r *hcRun) onClientFrame(cn *hcConn, f *vmFrame) *vs.Violation {
 		}
 		sid := f.HdrSID
 		if st := cn.streams[sid]; st != nil {
-			if f.HdrEndStr { // trailers
-				st.cliEnd = true
-			}
-			break
+			// no caller sends trailers: a second header block on a stream is a
+			// new request placed on a stream ID that was already used
+			return vs.Violf("C17", "stream_id_order", "cli:stream_id_reused", "conn %d: client sent a second HEADERS block on stream %d (first used by request %d; last opened stream %d)", cn.idx, sid, st.req, cn.lastSID)
 		}
 		// a new stream
 		if sid%2 != 1 {
@@ -932,6 +936,13 @@ func (r *hcRun) onClientFrame(cn *hcConn, f *vmFrame) *vs.Violation {
 			}
 		}
 		if len(rq.attempts) > 0 {
+			// The transport re-sends a request only if the previous attempt was
+			// refused: its stream was above the last-stream-id of a GOAWAY, or the
+			// server reset it with REFUSED_STREAM. A request on a stream the GOAWAY
+			// covers (or on a healthy connection) runs to completion or fails.
+			if prev := rq.attempts[len(rq.attempts)-1]; !prev.refused && !(prev.srvRst && prev.srvRstCode == ErrCodeRefusedStream) {
+				return vs.Violf("C18", "resent_without_refusal", "cli:unrefused_request_resent", "request %d was sent again (conn %d stream %d) although its previous attempt on conn %d stream %d was neither above a GOAWAY's last-stream-id (goaways on that conn: %d) nor reset with REFUSED_STREAM", rq.idx, cn.idx, sid, prev.cn.idx, prev.id, len(prev.cn.goaways))
+			}
 			vs.G.Inc("probe.request_resent")
 			if len(rq.attempts) >= 2 {
 				vs.G.Inc("probe.request_resent_after_backoff")
@@ -1051,7 +1062,11 @@ func (r *hcRun) serverReact(cn *hcConn) {
 		}
 	}
 	if cn.auto && cn.writable() {
-		for _, st := range cn.order {
+		// (answered in request order, not stream order: which of several requests
+		// the transport re-sends first after a GOAWAY depends on map iteration)
+		order := append([]*hcStream(nil), cn.order...)
+		sort.SliceStable(order, func(i, j int) bool { return order[i].req < order[j].req })
+		for _, st := range order {
 			if st.known && st.cliEndKnown && !st.srvEnd && !st.srvRst && !st.cliRstKnown {
 				cn.writeHeaders(st, 200, -1, false)
 				n := max(0, min(10, cn.srvConnWindow(), cn.cliIW)) // within the client's advertised windows
@@ -1199,7 +1214,9 @@ func (r *hcRun) opStreams(op hcOp) []*hcStream {
 	case "rst":
 		return r.cands(func(st *hcStream) bool { return hcAlive(st) && !st.cliRstKnown })
 	case "wu":
-		return r.cands(func(st *hcStream) bool { return hcAlive(st) && !st.cliEndKnown && !st.cliRstKnown && st.srvWUSum+int64(op.n) <= 1<<29 })
+		return r.cands(func(st *hcStream) bool {
+			return hcAlive(st) && !st.cliEndKnown && !st.cliRstKnown && st.srvWUSum+int64(op.n) <= 1<<29
+		})
 	}
 	return nil
 }
@@ -1592,6 +1609,11 @@ func (r *hcRun) NextTimed(now time.Time) (time.Time, bool) {
 // ---------------------------------------------------------------------------
 // callers
 
+var (
+	hcDebugHash  = os.Getenv("HC_DEBUG_HASH") != ""
+	hcDebugTrace = os.Getenv("HC_DEBUG_HASH") == "trace"
+)
+
 var hcReadBufs = sync.Pool{New: func() any { b := make([]byte, 1<<16); return &b }}
 
 func (r *hcRun) caller(rq *hcReq) func(tk *vs.Task) {
@@ -1710,6 +1732,14 @@ func hcRunOnce(t *testing.T, rt *rapid.T, focus string) {
 	var simDur time.Duration
 	var harness string
 	nontrivial := false
+	// The transport takes its request-body scratch buffers from sync.Pools and
+	// uses whatever length it gets, so the size of the body reads (and with it the
+	// DATA framing) depends on the pool contents, which a GC cycle clears: start
+	// every run with empty pools and keep the collector from starting a cycle
+	// inside the run (it runs between runs).
+	bufPools = [len(bufPools)]sync.Pool{}
+	oldGC := debug.SetGCPercent(-1)
+	defer debug.SetGCPercent(oldGC)
 	deadlock := vs.Bubble(t, func() {
 		sim := vs.NewSim(tape, tr)
 		sim.MaxSteps = vs.Thorough(6000, 16000)
@@ -1801,6 +1831,14 @@ func hcRunOnce(t *testing.T, rt *rapid.T, focus string) {
 	})
 	if deadlock != "" && viol == nil && harness == "" {
 		harness = "bubble did not wind down: " + deadlock
+	}
+	if hcDebugHash {
+		fmt.Printf("HCHASH %x n=%d\n", tr.Hash(), tr.N)
+		if hcDebugTrace {
+			for i, l := range tr.Log {
+				fmt.Printf("HCTRACE %x %d %s\n", tr.Hash(), i, l)
+			}
+		}
 	}
 	vs.G.EndRun(tr, nontrivial, simDur, func() any {
 		return map[string]any{"focus": focus, "trace_head": tr.Log[:min(len(tr.Log), 60)]}
